@@ -2,6 +2,7 @@ package dnsmsg
 
 import (
 	"net"
+	"slices"
 
 	"github.com/AdguardTeam/golibs/syncutil"
 	"github.com/miekg/dns"
@@ -87,13 +88,29 @@ func (c *optCloner) clone(rr *dns.OPT) (clone *dns.OPT, full bool) {
 			optClone = opt
 		// TODO(a.garipov): Add more if necessary.
 		default:
-			return dns.Copy(rr).(*dns.OPT), false
+			return copyOPT(rr), false
 		}
 
 		clone.Option = append(clone.Option, optClone)
 	}
 
 	return clone, true
+}
+
+// copyOPT returns a deep copy of rr made without the pools.
+func copyOPT(rr *dns.OPT) (clone *dns.OPT) {
+	clone = dns.Copy(rr).(*dns.OPT)
+	for _, opt := range clone.Option {
+		// [dns.Copy] copies the address slices of the subnet options
+		// shallowly, so that the copy would share the memory with the original
+		// and, once one of them is disposed, with the pooled options.
+		sn, ok := opt.(*dns.EDNS0_SUBNET)
+		if ok && sn.Address != nil {
+			sn.Address = slices.Clone(sn.Address)
+		}
+	}
+
+	return clone
 }
 
 // put returns structures from rr into c's pools.
